@@ -15,7 +15,7 @@ def setup(chk, tags=""):
 def _delta(chk, mark):
     return dict(obs=chk.obs[mark["obs"]:], violations=chk.violations[mark["viol"]:], known=chk.known[mark["known"]:],
                 inconclusive=chk.inconclusive[mark["inc"]:], functions=chk.functions, validated=chk.validated - mark["val"],
-                samples=chk.samples[mark["samples"]:])
+                samples=chk.samples[mark["samples"]:], extra=chk.extra)
 
 
 def _mark(chk):
@@ -30,6 +30,11 @@ def _apply(chk, d):
     chk.functions.update(d["functions"])
     chk.validated += d["validated"]
     chk.samples.extend(d["samples"])
+    for k, v in d.get("extra", {}).items():
+        if isinstance(v, dict) and isinstance(chk.extra.get(k, {}), dict):
+            chk.extra.setdefault(k, {}).update(v)
+        elif k not in chk.extra:
+            chk.extra[k] = v
 
 
 def run_kernels(chk, items, parallel=None):
